@@ -230,6 +230,14 @@ def flag_decode_rules(facts, rep):
                 else:
                     kinds["?" + show(val)[:40]] = (flag, others)
             good = set(kinds) == {"utf8", "cp437"} and kinds["utf8"][0] is True and kinds["cp437"][0] is False and not kinds["utf8"][1] and not kinds["cp437"][1]
+            # both decoders of a field read the SAME buffer, and it is that field's own: the name's decoders the raw name that is kept
+            # next to it, the comment's decoders another one (a copy-paste of the name's line decodes the name twice)
+            bufs = [frozenset(y for y in walk(val) if y[0] == "call" and y[1].endswith("from_elem")) for val, dbb in defs]
+            rawname = frozenset(y for y in walk(norm(ex.operand(flds["file_name_raw"], (bi, si)))) if y[0] == "call" and y[1].endswith("from_elem")) if "file_name_raw" in flds else frozenset()
+            src_ok = bool(bufs) and all(b_ == bufs[0] and len(b_) == 1 for b_ in bufs) and ((bufs[0] == rawname) if fld == "file_name" else (bufs[0] != rawname))
+            if rawname and not src_ok:
+                ok &= rep.check(False, rule, "%s-source@%s" % (fld, f.path.split("::")[-1]), where(f, s["span"]), "",
+                                "the decoders of %s do not all read that field's own raw bytes (%s)" % (fld, [sorted(show(y)[:50] for y in b_) for b_ in bufs]))
             if not good:
                 # the same table decided on paths (however the choice is spelled: match / if-else yielding a tuple / a helper): on every
                 # path that builds the entry, bit 11 was tested, and the decoders that ran are exactly the ones it calls for
